@@ -457,8 +457,9 @@ def run(rep):
                 sdone = True
                 break
     for fn in ('gcd', 'bear', 'translate'):
-        bad, cls, detail = oracle_sphere(fn, random.Random(rep.seed + 17))
-        rep.validated_runs(400)
+        nor = 6000 if rep.tier == 'thorough' else 400
+        bad, cls, detail = oracle_sphere(fn, random.Random(rep.seed + 17), n=nor)
+        rep.validated_runs(nor)
         if bad:
             rep.finding('C17/K-%s/%s' % (fn, cls), dict(fn=fn, detail=detail, seed=rep.seed + 17), detail, kernel='K-replay-oracle')
     rep.end_kernel()
